@@ -602,7 +602,7 @@ unsafe fn decrement_weak_contract(with_guard: bool) {
     assert!(DEALLOC_CALLS == 0 && !L.freed, "C03.decw.never_frees_directly");
     assert!(inv_h(rd(&(*p).state), &L), "C03.decw.exit_invariant");
     kani::cover!(hit_zero, "cover.decw.hit_zero");
-    kani::cover!(!hit_zero && BUDGET == 0, "cover.decw.interference");
+    kani::cover!(!hit_zero && BUDGET < budget(), "cover.decw.interference");
 }
 rg_harness! {
 /// decrement_weak by a weak owner: one step, -1; the last one defers exactly one try_dealloc.
